@@ -204,6 +204,9 @@ type ReplayOutcome struct {
 
 // buildReplay generates the test source for calling fn with the given constant inputs.
 func (p *Program) buildReplay(fn *ssa.Function, inputs []*Term, meta *ReplayMeta) (string, error) {
+	if fn.Pkg == nil {
+		return "", fmt.Errorf("generic instance: no replay")
+	}
 	pkg := fn.Pkg.Pkg
 	lc := &litCtx{pkg: pkg, imports: map[string]string{"reflect": "reflect", "strconv": "strconv", "testing": "testing", "fmt": "fmt"}}
 	var decls, args []string
@@ -301,6 +304,10 @@ func (p *Program) Replay(key string, o *Obligation, prop, outDir string) *Replay
 	con := p.Store.Funcs[key]
 	if fn == nil || con == nil || o.Model == "" {
 		out.Detail = "no model"
+		return out
+	}
+	if fn.Pkg == nil || fn.TypeParams().Len() > 0 {
+		out.Detail = "generic function: counterexample not replayed"
 		return out
 	}
 	sx, err := parseSx(o.Model)
